@@ -490,6 +490,43 @@ def build_cases(g, ctx):
                 cases.append(Case("c.isom %s %s %s %s" % (P, raw_ideal_line((one, 1)), raw_ideal_line((Iell, ell)), OL), "isom",
                                   spec_isom(p, one, Iell, principal), dict(order=oname, I1=(one, 1), I2=(Iell, ell))))
                 done += 1
+    # ---- deterministic small-prime cases on O0 (not left to chance):
+    #  * product I·alpha where a prime divides both nrd(alpha) and the cofactor N(g)/N(I) of SOME generator g of I
+    #    (the coprimality demanded of the generator in quat_lideal_mul matters exactly there), smallest instance
+    #    I = O0(1+2i) + 5·O0, alpha = 1+i;
+    #  * intersection / sum of two DISTINCT ideals of the same prime norm l (not nested, norms not coprime):
+    #    N(I1 ∩ I2) = l^2, not lcm = l.
+    O0name, O0raw = g.orders[0]
+    if O0name == "MAXORD_O0":
+        O0c = Q.canon(*O0raw)
+        O0L = hxs(lat_flat(O0raw))
+        split = [(5, 1, 2), (13, 2, 3), (17, 1, 4), (29, 2, 5), (37, 1, 6)]
+        alphas = [(1, [1, 1, 0, 0]), (1, [3, 0, 0, 0]), (1, [0, 2, 0, 0]), (1, [1, 3, 0, 0]), (1, [2, 2, 0, 0]), (1, [3, 3, 0, 0])]
+        for (ell, a, b) in (split if not quick else split[:3]):
+            x1, x2 = (1, [a, b, 0, 0]), (1, [a, -b, 0, 0])
+            I1 = Q.left_ideal_gen(p, O0c, elem_val(x1), ell)
+            I2 = Q.left_ideal_gen(p, O0c, elem_val(x2), ell)
+            if Q.ideal_norm(O0c, I1) != ell or Q.ideal_norm(O0c, I2) != ell or I1 == I2:
+                raise vlib.BuildError("oracle inconsistency: split prime ideals of O0")
+            for (A, B) in ((I1, I2), (I2, I1)):
+                S, T = Q.add(A, B), Q.intersect(A, B)
+                nS, nT = Q.ideal_norm(O0c, S), Q.ideal_norm(O0c, T)
+                g.count("det_small_prime", "inter/add same prime norm %d" % ell)
+                cases.append(Case("id.inter %s %s %s" % (raw_ideal_line((A, ell)), raw_ideal_line((B, ell)), O0L), "inter_same_prime_norm",
+                                  spec_ideal(T, nT, O0c, "lideal_inter"), dict(order=O0name)))
+                cases.append(Case("id.add %s %s %s" % (raw_ideal_line((A, ell)), raw_ideal_line((B, ell)), O0L), "add_same_prime_norm",
+                                  spec_ideal(S, nS, O0c, "lideal_add"), dict(order=O0name)))
+            for al in alphas:
+                av = elem_val(al)
+                na = int(Q.qnorm(p, av))
+                if gcd(na * na, ell) != gcd(na, ell):
+                    continue
+                Ia = Q.mul_right(p, I1, av)
+                g.count("det_small_prime", "mul I(l=%d)*alpha(n=%d)" % (ell, na))
+                IL1 = raw_ideal_line((I1, ell))
+                cases.append(Case("id.mul %s %s %s %s 0" % (P, IL1, O0L, hxs(elem_flat(al))), "mul_small_prime",
+                                  spec_mul(Ia, ell * na, O0c), dict(order=O0name, alpha=al, IL=IL1)))
+                ctx.case("L%d:det:mul:%d:%d" % (g.lvl, ell, na))
     # ---- connecting ideals between pairs of extremal orders
     pairs = [(a, b) for a in range(norders) for b in range(norders) if a != b]
     if quick:
